@@ -21,7 +21,11 @@ RULE = (
     "destination against the source, against the current clock (always_ff) and against every enclosing condition domain. R4 propagation: "
     "the result's clock_domain written by those operator functions merges the domains of all operands. R5 reachability: each lowering "
     "function in the frozen table (assignment, always_ff, instance ports, connect, function call, expression context, module ports) still "
-    "calls check_clock_domain or check_assign_clock_domain."
+    "calls check_clock_domain or check_assign_clock_domain. R6 chain gating: in the converters of if / if_reset / switch / case statements no "
+    "nested block is lowered outside Context::with_condition_domain(s) once a condition was evaluated; the one-condition form is used only "
+    "where one condition evaluation reaches it; the list form receives the condition evaluated before the chain and, on every path, the "
+    "condition of the current iteration, is one list for the whole chain and is never shrunk or re-initialised. R7 in the instance-port "
+    "lowering an expression is stored as the representative of a callee clock domain only on the edge where its clock_domain != None."
 )
 
 CRATES = ["veryl_analyzer"]
@@ -359,6 +363,8 @@ def run(world, tier, info, only=None):
     callers = sorted(p for p, x in w.fns.items() if any(c["c"] == KA for c in x["calls"]))
     ck.floor("R5", "callers of check_assign_clock_domain", len(callers), ASSIGN_CALLERS_FLOOR)
 
+    _chain_gating(ck, w)
+    _representative(ck, w)
     # ---------------- R5 must-call table ----------------------------------------------------------------------
     for p, why in sorted(MUST_CALL.items()):
         if p not in w.fns:
@@ -371,6 +377,212 @@ def run(world, tier, info, only=None):
     new = [p for p in all_callers if re.sub(r"::\{closure#\d+\}.*$", "", p) not in MUST_CALL]
     ck.analysed = {"check_clock_domain_callers": all_callers, "callers_outside_table": new, "check_assign_callers": callers}
     return ck.finish(info)
+
+
+# ---------------- R6 every branch of an if / if_reset / switch chain is lowered under all the conditions that gate it -------
+CONV_PRE = "veryl_analyzer::conv::statement::<impl veryl_analyzer::conv::Conv<&" + G + "%s> for veryl_analyzer::ir::statement::StatementBlock>::conv"
+CHAINS = {"IfStatement": 2, "IfResetStatement": 1, "SwitchStatement": 1, "CaseStatement": 1}   # converter -> condition evaluation sites counted by hand
+COND_EVAL = re.compile(r"^veryl_analyzer::conv::utils::(eval_expr|switch_condition)$|^<veryl_analyzer::ir::expression::Expression as veryl_analyzer::conv::Conv<&" + re.escape(G) + r"Expression>>::conv$|Conv<&" + re.escape(G) + r"Expression> for veryl_analyzer::ir::expression::Expression>::conv$")
+BLOCK_CONV = re.compile(r"Conv<&" + re.escape(G) + r"(StatementBlock|Statement|StatementBlockItem)> for veryl_analyzer::ir::statement::StatementBlock>::conv$|^veryl_analyzer::conv::statement::(switch_item_body|with_tb_hoist_sink)$")
+WCD = "veryl_analyzer::conv::context::Context::with_condition_domain"
+VEC_SHRINK = re.compile(r"^alloc::vec::Vec::<T, A>::(clear|truncate|pop|drain|remove|swap_remove|retain|split_off|dedup.*)$|^core::mem::(take|replace|swap)$")
+VPUSH = r"^alloc::vec::Vec::<T, A>::push$"
+
+
+def _root_named(g, op, depth=12):
+    """the named local an operand is a (reference to a / deref of a / copy of a) view of"""
+    if op[0] == "k":
+        return None
+    l, proj = op[1][0], op[1][1]
+    for _ in range(depth):
+        if g.name(l):
+            return l
+        d = g.def_of(l)
+        if d is None:
+            return None
+        if d[0] == "s":
+            rv = g.rvalue_at(d)
+            if rv[0] == "use" and rv[1][0] != "k":
+                l = rv[1][1][0]
+            elif rv[0] in ("ref", "ptr"):
+                l = rv[2][0]
+            elif rv[0] == "cast" and rv[2][0] != "k":
+                l = rv[2][1][0]
+            else:
+                return None
+        else:
+            t = g.blocks[d[1]]["t"]
+            if re.search(r"Deref(Mut)?>::deref(_mut)?$|::as_slice$|::as_ref$|::borrow$", t.get("callee") or "") and t["args"] and t["args"][0][0] != "k":
+                l = t["args"][0][1][0]
+            else:
+                return None
+    return None
+
+
+def _chain_gating(ck, w):
+    import taint
+    PUREX = re.compile(r"Try>::branch$|Clone>::clone$|Expression::comptime$|Expression::eval_comptime$|::as_ref$|Deref>::deref$")
+    for kind, n_hand in sorted(CHAINS.items()):
+        p = CONV_PRE % kind
+        if p not in w.fns:
+            ck.missing("R6", p)
+            continue
+        x = w.fns[p]
+        g = Fn(w.mir(p))
+        ces = [(bi, t) for bi, t in g.calls() if COND_EVAL.search(t.get("callee") or "")]
+        ck.ob("R6", "chain/%s/condition-evaluations" % kind, len(ces) >= n_hand, site(x),
+              "%d condition evaluation sites (counted by hand: %d)" % (len(ces), n_hand))
+        loops = flow.loops_over(g)
+        body = {head: g.reach_from(some, avoid=[head]) for head, t, some, none, item in loops}
+        reach = {bi: g.reach_from(t["to"]) for bi, t in ces}
+        # N1 no ungated conversion after a condition was evaluated
+        n_conv = 0
+        for bi, t in sorted(g.calls(), key=lambda z: (z[1]["l"], z[0])):
+            if not BLOCK_CONV.search(t.get("callee") or ""):
+                continue
+            n_conv += 1
+            if any(bi in reach[e] for e, _ in ces):
+                ck.ob("R6", "chain/%s/gated-conversion@%d" % (kind, n_conv), False, site(x, t["l"]),
+                      "a nested statement block is lowered directly in the converter after a condition was evaluated, outside "
+                      "Context::with_condition_domain(s): writes in that block are not checked against the condition's clock domain")
+        wcs = [(bi, t) for bi, t in g.calls("^" + re.escape(WCD) + "s?$")]
+        ck.ob("R6", "chain/%s/gates" % kind, bool(wcs), site(x), "%d with_condition_domain(s) calls" % len(wcs))
+        n_sing = n_plur = 0
+        for bi, t in wcs:
+            plural = t["callee"].endswith("domains")
+            reaching = [e for e, _ in ces if bi in reach[e]]
+            in_loops = [h for h in body if bi in body[h] and any(e in body[h] for e, _ in ces)]
+            if not plural:
+                n_sing += 1
+                ok = len(reaching) <= 1 and not in_loops
+                ck.ob("R6", "chain/%s/single-condition-gate@%d" % (kind, n_sing), ok, site(x, t["l"]),
+                      "with_condition_domain (one condition) is used where exactly one condition gates the branch" if ok else
+                      "a branch reached after %d condition evaluations%s is lowered under one condition only: the earlier conditions of the "
+                      "chain gate its writes as well and are not checked" % (len(reaching), " (inside the loop over the chain)" if in_loops else ""))
+                continue
+            n_plur += 1
+            V = _root_named(g, t["args"][1])
+            if V is None:
+                ck.ob("R6", "chain/%s/gate-list@%d" % (kind, n_plur), None, site(x, t["l"]), "cannot resolve the condition list passed to with_condition_domains")
+                continue
+            pushes = [(pb, pt) for pb, pt in g.calls(VPUSH) if _root_named(g, pt["args"][0]) == V]
+            for e, et in ces:
+                if bi not in reach[e]:
+                    continue
+                tn = taint.Taint(g, seed_call=lambda tt, et=et: tt is et, pure=PUREX)
+                same_loop = [h for h in body if e in body[h] and bi in body[h]]
+                if same_loop:
+                    gates = [pb for pb, pt in pushes if tn.op_tainted(pt["args"][1])]
+                    esc = flow.escapes(g, et["to"], gates, stops=[bi] + same_loop)
+                    ok = bi not in esc
+                    ck.ob("R6", "chain/%s/gate-list@%d/has-own-condition" % (kind, n_plur), ok, site(x, t["l"]),
+                          "the condition evaluated in this iteration is pushed onto `%s` on every path to the branch's lowering" % g.name(V) if ok else
+                          "the branch can be lowered without its own condition (evaluated at line %s) having been pushed onto `%s`" % (et["l"], g.name(V)))
+                elif not any(e in body[h] for h in body):
+                    # evaluated before the chain loop (the first `if`): it must be in the list from the start or be pushed
+                    ok = any(tn.op_tainted(pt["args"][1]) for pb, pt in pushes) or _init_holds(g, V, tn)
+                    ck.ob("R6", "chain/%s/gate-list@%d/has-first-condition" % (kind, n_plur), ok, site(x, t["l"]),
+                          "the condition evaluated before the chain (line %s) is in `%s`" % (et["l"], g.name(V)) if ok else
+                          "`%s` never receives the condition evaluated at line %s, which gates this branch too" % (g.name(V), et["l"]))
+                # evaluated in the loop, lowered after it (final else / default): same list as inside the loop, checked below
+            inner = [g.name(_root_named(g, t2["args"][1]) or -1) for b2, t2 in wcs if t2["callee"].endswith("domains")]
+            ck.ob("R6", "chain/%s/gate-list@%d/one-list" % (kind, n_plur), len(set(inner)) == 1, site(x, t["l"]),
+                  "every branch of the chain is lowered under the same accumulating list (%s)" % sorted(set(map(str, inner))))
+            # N4 the list only grows
+            bad = []
+            for b2, t2 in g.calls():
+                if VEC_SHRINK.search(t2.get("callee") or "") and t2["args"] and _root_named(g, t2["args"][0]) == V:
+                    bad.append("%s at line %s" % (t2["callee"].split("::")[-1], t2["l"]))
+            ndef = [d for d in g.defs.get(V, []) if any(d[1] in body[h] and any(e in body[h] for e, _ in ces) for h in body)]
+            if ndef:
+                bad.append("re-initialised inside the loop")
+            ck.ob("R6", "chain/%s/gate-list@%d/only-grows" % (kind, n_plur), not bad, site(x, t["l"]),
+                  "`%s` is never shrunk or re-initialised inside the chain" % g.name(V) if not bad else "`%s` loses earlier conditions: %s" % (g.name(V), bad))
+    ck.floor("R6", "chain converters", len([k for k in CHAINS if CONV_PRE % k in w.fns]), 4)
+
+
+def _init_holds(g, V, tn):
+    """`let V = vec![x]` with x tainted: the array written into the box that becomes V"""
+    roots = set()
+    for bi, t in g.calls(r"box_assume_init_into_vec_unsafe$|slice::<impl \[T\]>::into_vec$|Vec::<T>::from_elem$|from_iter$"):
+        if t["dst"][0] == V and not t["dst"][1]:
+            if "from_elem" in t["callee"] or "from_iter" in t["callee"]:
+                if any(tn.op_tainted(a) for a in t["args"]):
+                    return True
+            for a in t["args"]:
+                if a[0] != "k":
+                    roots |= _local_roots(g, a[1][0])
+    for b in g.blocks:
+        if b.get("cu"):
+            continue
+        for st in b["s"]:
+            if st[0] == "=" and st[2][0] == "agg" and st[2][1] == "array" and "*" in st[1][1]:
+                if _local_roots(g, st[1][0]) & roots and any(tn.op_tainted(o) for o in st[2][2]):
+                    return True
+    return False
+
+
+def _local_roots(g, l, depth=8):
+    out = {l}
+    for _ in range(depth):
+        d = g.def_of(l)
+        if d is None or d[0] != "s":
+            break
+        rv = g.rvalue_at(d)
+        if rv[0] == "use" and rv[1][0] != "k":
+            l = rv[1][1][0]
+        elif rv[0] == "cast" and rv[2][0] != "k":
+            l = rv[2][1][0]
+        elif rv[0] in ("ref", "ptr"):
+            l = rv[2][0]
+        else:
+            break
+        out.add(l)
+    return out
+
+
+# ---------------- R7 the representative of a callee clock domain carries a domain ----------------------------------------------------
+def _representative(ck, w):
+    p = [q for q in MUST_CALL if "InstDeclaration" in q][0]
+    if p not in w.fns:
+        return
+    x = w.fns[p]
+    g = Fn(w.mir(p))
+    ins = []
+    for bi, t in g.calls(r"HashMap<.*>::insert$|hash::map::HashMap.*::insert$"):
+        V = _root_named(g, t["args"][0])
+        if V is not None and g.name(V) == "clock_domain_table":
+            ins.append((bi, t))
+    ck.ob("R7", "inst-connect/representative-table", bool(ins), site(x), "%d insertions into clock_domain_table" % len(ins))
+    # comparisons of an expression's clock_domain with the constant ClockDomain::None
+    cmps = []
+    for cb, ct in g.calls(r"PartialEq(<.*>)?>?::(ne|eq)$"):
+        if not any(flow.access_path(g, a)[1][-1:] == ("clock_domain",) for a in ct["args"]):
+            continue
+        none = False
+        for a in ct["args"]:
+            pi = _promoted_idx(g, a)
+            pr = w.promoted(p, pi) if pi is not None else None
+            if pr and _promoted_variant(pr) == "None":
+                none = True
+        sw = g.blocks[ct["to"]]["t"]
+        if none and sw["t"] == "sw" and sw["on"][0] != "k" and sw["on"][1][0] == ct["dst"][0] and len(sw["vals"]) == 1 and sw["vals"][0][0] == "0":
+            ne = ct["callee"].endswith("::ne")
+            cmps.append((ct["to"], sw["else"] if ne else sw["vals"][0][1], sw["vals"][0][1] if ne else sw["else"], ct))
+    for k, (bi, t) in enumerate(ins):
+        ok = False
+        for swb, differs, same, ct in cmps:
+            # the insertion is reached over the `differs` edge and cannot be reached over the other one
+            if bi in g.reach_from(differs, avoid=[swb]) and bi not in g.reach_from(same, avoid=[swb]):
+                # and it is the inserted expression's domain that was compared
+                va = _root_named(g, t["args"][2]) if len(t["args"]) > 2 else None
+                ca = [_root_named(g, a) for a in ct["args"]]
+                if va is None or va in ca:
+                    ok = True
+        ck.ob("R7", "inst-connect/representative-has-domain@%d" % (k + 1), ok, site(x, t["l"]),
+              "an expression becomes the representative of a callee clock domain only where its clock_domain was compared with ClockDomain::None and differs" if ok else
+              "an expression whose clock domain may be None (a constant) becomes the representative of a callee clock domain: None is compatible "
+              "with everything, so every later connection to that domain is accepted")
 
 
 def _short(p):
